@@ -869,7 +869,8 @@ impl TxPoolService {
             if let Ok((rtx, status)) = resolve_tx(tx_pool, tx_pool.snapshot(), tx, false)
                 && let Ok(fee) = check_tx_fee(tx_pool, tx_pool.snapshot(), &rtx, tx_size)
             {
-                let verify_cache = fetched_cache.get(&tx_hash).cloned();
+                // `fetch_txs_verify_cache` keys the entries by witness hash
+                let verify_cache = fetched_cache.get(&rtx.transaction.witness_hash()).cloned();
                 let snapshot = tx_pool.cloned_snapshot();
                 let tip_header = snapshot.tip_header();
                 let tx_env = Arc::new(status.with_env(tip_header));
